@@ -1040,7 +1040,7 @@ class Variable(CanBehaveLikeAVariable[T]):
             # the truthiness of a bound value is a condition only where the variable is used as one
             is_false = False
             if (
-                isinstance(self._parent_, LogicalBinaryOperator)
+                isinstance(self._parent_, LogicalOperator)
                 or self is self._conditions_root_
             ):
                 self._is_false_ = is_false = not bool(sources[self._id_])
